@@ -352,3 +352,29 @@ PROPS['C15'] = dict(
            dict(name='vertex_value', harness='h_vertex', defs=[], split={'freq': R(6)}, witnesses=['done', 'n1_eq_n3', 'n2_eq_n3'],
                 validate=[{'freq': 1}, {'freq': 3}])],
 )
+
+PROPS['C17'] = dict(
+    claim='Memory-safety monitors of the symbolic executor (every load/store checked against object bounds, liveness and initialisation; '
+          'branches and addresses that depend on uninitialised memory; signed overflow of nsw arithmetic; division by zero) run on every '
+          'unit of every property.  This check runs the dedicated units for the anchored mechanisms: the three index-chasing loops over ALL '
+          'pairs of sparsity patterns with storage arrays of exactly nnz elements, the Matsubara tables with symbolic indices, the state-label '
+          'getters with symbolic labels beyond 2^N, Operator equality on monomials of different length.',
+    bounds={Q: 'chase loops: all pattern pairs up to 2x2 (G, susceptibility), shapes (2,2,1,1)...(2,1,1,2) (2PGF); Matsubara window N<=2; '
+               'state labels 0..2^N+2 on two block structures', T: 'G / susceptibility patterns 3x2 and 2x3'},
+    assumptions=['a monitor hit is reported only after the native AddressSanitizer/UBSan replay reproduces it'],
+    outside=['undefined behaviour without an IR-level trace (forming &v[0] of an empty vector: TwoParticleGF::compute with an empty '
+             'frequency list)', 'data races (OpenMP pragma is compiled out)', 'workflows not driven by any unit'],
+    units=[dict(name='gfpart_mem_2x2', harness='h_gfpart', defs=['OUTER=2', 'INNER=2', 'REGIME=2'], split={'C': R(16), 'CX': R(16)}, witnesses=['computed']),
+           dict(name='gfpart_mem_3x2', harness='h_gfpart', defs=['OUTER=3', 'INNER=2', 'REGIME=2'], split={'C': R(64)}, tiers=[T], witnesses=['computed']),
+           dict(name='gfpart_mem_2x3', harness='h_gfpart', defs=['OUTER=2', 'INNER=3', 'REGIME=2'], split={'C': R(64)}, tiers=[T], witnesses=['computed']),
+           dict(name='suscpart_mem_2x2', harness='h_suscpart', defs=['OUTER=2', 'INNER=2', 'REGIME=2'], split={'A': R(16), 'B': R(16)}, witnesses=['computed']),
+           dict(name='2pgfpart_mem_2211', harness='h_2pgfpart', defs=['DIM1=2', 'DIM2=2', 'MEMONLY=1'], concrete=True,
+                split={'O1': _P2(4), 'O2': _P2(2), 'O3': [0, 1], 'CX4': _P2(2)}, witnesses=['computed', 'done']),
+           dict(name='2pgfpart_mem_1122', harness='h_2pgfpart', defs=['DIM3=2', 'DIM4=2', 'MEMONLY=1'], concrete=True,
+                split={'O1': [0, 1], 'O2': _P2(2), 'O3': _P2(4), 'CX4': _P2(2)}, witnesses=['computed', 'done']),
+           dict(name='mc4_mem', harness='h_mc4', defs=['NMAX=2'], split={'N': R(3)}, witnesses=['done', 'hit', 'miss']),
+           dict(name='states_m1', harness='h_states', defs=['MODEL=1'], witnesses=['done', 'label_valid', 'label_out_of_range'], max_loop=20000,
+                validate=[{'state': 2, 'block': 1, 'inner': 1}]),
+           dict(name='states_m3', harness='h_states', defs=['MODEL=3'], witnesses=['done', 'label_valid', 'label_out_of_range'], max_loop=20000),
+           dict(name='operator_eq_mem', harness='h_operator', defs=['MODE=3', 'PAIRSET=0', 'MODES=3'], max_loop=50000, witnesses=['done', 'different_pair'])],
+)
